@@ -297,6 +297,81 @@ func c13CrossVersion() {
 	}()
 }
 
+// c13CrossVersionReorg: in the v1/v2 window a v1 transaction A (with a fee) is confirmed and a pooled v2
+// transaction T spends its output. A reorg reverts A's block: A returns to the v1 pool, T's input is no longer
+// confirmed. A v2 set cannot carry a v1 parent, so whatever V2TransactionSet assembles for a child of T must
+// still be valid at the tip on its own - or T must be gone from the pool.
+func c13CrossVersionReorg() {
+	u := univ.NewUniverse("cross-version-reorg", univ.RegimeS) // v2 allowed from 2, required from 8
+	k := 0
+	// base at the allow height (the v1 signature replay prefix changes there): everything below happens
+	// between allow and require height, where v1 and v2 transactions are both valid
+	for u.Nodes[k].Height < u.Net.HardforkV2.AllowHeight {
+		k = u.Add(k, 0, nil, nil, fmt.Sprintf("m%d", u.Nodes[k].Height+1))
+	}
+	base := k
+	a := u.As[1]
+	Lb := u.Nodes[base].L
+	p1 := univ.V1Spend(Lb.State, a, univ.OwnedSC(Lb, a.Addr)[0], a.Addr, univ.SC(9), univ.SC(1))
+	a3 := u.Add(base, 0, []types.Transaction{p1}, nil, "A")
+	b := base
+	for i := 0; i < 2; i++ {
+		b = u.Add(b, 1, nil, nil, fmt.Sprintf("B%d", i+1))
+	}
+	if !u.Nodes[a3].Valid || !u.Nodes[b].Valid {
+		run.Violate("c13:cross-version-setup", "universe invalid: "+u.Nodes[a3].Err+u.Nodes[b].Err, nil)
+		return
+	}
+	n := node.New(u)
+	if err := n.CM.AddBlocks(u.Blocks(u.PathTo(a3))); err != nil {
+		run.Violate("c13:cross-version-setup", err.Error(), nil)
+		return
+	}
+	La := u.Nodes[a3].L
+	out, ok := La.SCEs[p1.SiacoinOutputID(0)]
+	if !ok {
+		run.Violate("c13:cross-version-setup", "output of the confirmed v1 transaction not found", nil)
+		return
+	}
+	T := univ.V2Spend(La.State, a, out, a.Addr, univ.SC(6), univ.SC(1))
+	if _, err := n.CM.AddV2PoolTransactions(n.CM.Tip(), []types.V2Transaction{T}); err != nil {
+		run.Violate("c13:cross-version-setup", "v2 spend of the confirmed v1 output refused: "+err.Error(), nil)
+		return
+	}
+	if err := n.CM.AddBlocks(u.Blocks(u.PathTo(b))); err != nil || n.TipNode() != b {
+		run.Violate("c13:cross-version-setup", fmt.Sprintf("reorg failed: %v", err), nil)
+		return
+	}
+	run.Add(1, 1, 1, 1)
+	stillPooled := false
+	for _, x := range n.CM.V2PoolTransactions() {
+		stillPooled = stillPooled || x.ID() == T.ID()
+	}
+	run.Distinct("cross-version-reorg", stillPooled)
+	if os.Getenv("VERIF_DEBUG") != "" {
+		fmt.Println("DBG cross-version-reorg: T still pooled:", stillPooled, "v1 pool:", len(n.CM.PoolTransactions()), "v2 pool:", len(n.CM.V2PoolTransactions()))
+	}
+	if !stillPooled {
+		return
+	}
+	X := univ.V2Spend(u.Nodes[b].L.State, a, univ.Ephemeral(T, 0), u.As[0].Addr, univ.SC(3), univ.SC(1))
+	_, set, err := n.CM.V2TransactionSet(n.CM.Tip(), X.DeepCopy())
+	if os.Getenv("VERIF_DEBUG") != "" {
+		fmt.Println("DBG cross-version-reorg: V2TransactionSet:", len(set), err)
+	}
+	if err != nil {
+		return // refusing to assemble a set is fine
+	}
+	ms := consensus.NewMidState(u.Nodes[b].L.State)
+	for i, x := range set {
+		if verr := consensus.ValidateV2Transaction(ms, x); verr != nil {
+			run.Violate("c13:txset-not-broadcastable:v1-parent", fmt.Sprintf("[s] a pooled v2 transaction T spends the output of a v1 transaction whose block was reverted (the v1 transaction is back in the v1 pool); V2TransactionSet for a child of T returns %d transactions of which number %d is not valid at the tip: %v - a v2 set cannot carry the v1 parent, so nobody who lacks it accepts the set", len(set), i, verr), nil)
+			return
+		}
+		ms.ApplyV2Transaction(x)
+	}
+}
+
 func c13StaleBasis() {
 	for _, reg := range []univ.Regime{univ.RegimeX, univ.RegimeV2} {
 		u := univ.NewUniverse("stale-basis", reg)
@@ -777,6 +852,7 @@ func c13() {
 	if os.Getenv("VERIF_C13_ONLY") == "extras" { // debugging aid
 		c13Diamond()
 		c13CrossVersion()
+		c13CrossVersionReorg()
 		c13StaleBasis()
 		return
 	}
@@ -808,6 +884,7 @@ func c13() {
 	}
 	c13Diamond()
 	c13CrossVersion()
+	c13CrossVersionReorg()
 	c13StaleBasis()
 	if v := c13Line(); v != nil {
 		run.Violate(v.Signature, v.What, map[string]any{"universe": "line150"})
